@@ -10,6 +10,11 @@ template<class T> static std::string exp(const T &x) { std::ostringstream o; o <
 template<class T> static std::string grp(const T &x) { std::ostringstream o; x.PublishGroup(o); return o.str(); }
 template<class T> static std::string sta(const T &x) { std::ostringstream o; x.PublishState(o); return o.str(); }
 
+// fill persisted-state members with non-zero random content (a fresh instance is all zeros, which hides misaligned reads)
+static void fill(mpz_ptr z) { gen_bits(z, 100); mpz_add_ui(z, z, 1); }
+static void fill(std::vector<mpz_ptr> &v) { for (mpz_ptr z : v) fill(z); }
+static void fill(std::vector< std::vector<mpz_ptr> > &v) { for (auto &r : v) fill(r); }
+
 static void same(const char *key, const std::string &a, const std::string &b) {
 	if (a != b) propfail(key, std::string("re-export differs: first '") + a.substr(0, 160) + "' second '" + b.substr(0, 160) + "'");
 }
@@ -18,7 +23,7 @@ int main(int argc, char **argv) {
 	Args A(argc, argv);
 	if (!init_libTMCG()) return 2;
 	const unsigned F = 256, G = 128;
-	unsigned rounds = A.thorough() ? 6 : 2;
+	unsigned rounds = A.thorough() ? 12 : 3;
 	for (unsigned it = 0; it < rounds; it++) {
 		// ---- keys --------------------------------------------------------------------------------
 		try {
@@ -79,21 +84,30 @@ int main(int argc, char **argv) {
 			// ---- persisted protocol states (fresh instances; states after a run are covered by C15) ------
 			size_t n = 3 + gen().below(3), t = (n - 1) / 2;
 			PedersenVSS vss(n, t, gen().below(n), v.p, v.q, v.g, v.h, F, G, false, "lbl");
+			fill(vss.sigma_i); fill(vss.tau_i); fill(vss.a_j); fill(vss.b_j); fill(vss.A_j);
 			s = sta(vss); std::istringstream in5(s);
 			PedersenVSS vss2(in5, F, G, false, "lbl");
 			same("vss-state-roundtrip", s, sta(vss2));
 			Rec("vssstate").d(n).d(t).d(s.size());
 			GennaroJareckiKrawczykRabinDKG dkg(n, t, gen().below(n), v.p, v.q, v.g, v.h, F, G, false, false, "lbl");
+			fill(dkg.x_i); fill(dkg.xprime_i); fill(dkg.y); fill(dkg.y_i); fill(dkg.z_i); fill(dkg.v_i);
+			fill(dkg.s_ij); fill(dkg.sprime_ij); fill(dkg.C_ik);
+			for (size_t a = 0; a < n; a++) if (gen().coin()) dkg.QUAL.push_back(a);
 			s = sta(dkg); std::istringstream in6(s);
 			GennaroJareckiKrawczykRabinDKG dkg2(in6, F, G, false, false, "lbl");
 			same("dkg-state-roundtrip", s, sta(dkg2));
 			Rec("dkgstate").d(n).d(t).d(s.size());
-			CanettiGennaroJareckiKrawczykRabinRVSS rv(n, t, gen().below(n), t, v.p, v.q, v.g, v.h, F, G, false, false, "lbl");
+			size_t tprime = (it % 3 == 0) ? t : ((it % 3 == 1) ? t + 1 + gen().below(2) : (t > 0 ? t - 1 : t + 1));
+			CanettiGennaroJareckiKrawczykRabinRVSS rv(n, t, gen().below(n), tprime, v.p, v.q, v.g, v.h, F, G, false, false, "lbl");
+			fill(rv.x_i); fill(rv.xprime_i); fill(rv.z_i); fill(rv.zprime_i); fill(rv.s_ji); fill(rv.sprime_ji); fill(rv.C_ik);
+			for (size_t a = 0; a < n; a++) if (gen().coin()) rv.QUAL.push_back(a);
 			s = sta(rv); std::istringstream in7(s);
 			CanettiGennaroJareckiKrawczykRabinRVSS rv2(in7, F, G, false, false, "lbl");
 			same("rvss-state-roundtrip", s, sta(rv2));
 			Rec("rvssstate").d(n).d(t).d(s.size());
 			CanettiGennaroJareckiKrawczykRabinDKG cd(n, t, gen().below(n), v.p, v.q, v.g, v.h, F, G, false, false, "lbl");
+			fill(cd.x_i); fill(cd.xprime_i); fill(cd.y);
+			for (size_t a = 0; a < n; a++) if (gen().coin()) cd.QUAL.push_back(a);
 			s = sta(cd); std::istringstream in8(s);
 			CanettiGennaroJareckiKrawczykRabinDKG cd2(in8, F, G, false, false, "lbl");
 			same("cdkg-state-roundtrip", s, sta(cd2));
